@@ -30,13 +30,14 @@ THEOREMS = [f'Gnpy.Chain.{t}' for t in (
     'design_deterministic', 'addInline_fixpoint', 'addMissing_fixpoint', 'addConn_fixpoint', 'split_fixpoint',
     'padding_fixpoint', 'ampStep_fixpoint', 'redesign_fixpoint', 'export_rounding_partial',
     'redesign_eol_counterexample', 'redesign_eol_drift', 'simparams_restored', 'simparams_restored_any_prior',
-    'simparams_restored_many', 'simparams_during')]
-RULE = ('cases from one PRNG: (a) 70 % topologies/configurations of C08 (Raman crash inputs excluded, EOL = 0 in 75 % of '
+    'simparams_restored_many', 'simparams_during', 'reload_rejects_dangling')]
+RULE = ('cases from one PRNG: (a) 60 % topologies/configurations of C08 (Raman crash inputs excluded, EOL = 0 in 75 % of '
         'them) taken through design, a second design of the same input, and 1-3 export(network_to_json)/reload'
-        '(network_from_json)/redesign rounds; (b) 30 % SimParams cases: a random prior setting (Raman flag/method/order/'
+        '(network_from_json)/redesign rounds; (b) 30 % SimParams cases; (c) 10 % malformed: an exported design from which one line element was deleted while its connections '
+        'remain must be rejected on reload with NetworkTopologyError. SimParams cases: a random prior setting (Raman flag/method/order/'
         'resolutions, NLI method in mixed case, tolerances, computed channels) in force while a topology with 0-2 '
         'RamanFibers is designed. non-trivial: the design has at least one amplifier with an automatically derived '
-        'setting and one redesign round was compared / a RamanFiber was estimated under a non-default prior setting; '
+        'setting and one redesign round was compared / a RamanFiber was estimated under a non-default prior setting / every malformed case; '
         'distinct = distinct canonical JSON')
 MODEL_SCOPE = ('modelled: Fiber/Fused/Edfa.to_json rounding (length, loss_coef, gain 6 digits, tilt 5), the reload through '
                'FiberParams/EdfaOperational, the second design (C08 + C09 models on the exported line), '
@@ -62,8 +63,15 @@ JTOL = 2e-6
 
 
 def gen(rng, tier, widen=False):
-    if rng.random() < 0.3:
+    r = rng.random()
+    if r < 0.3:
         return gen_simparams(rng, tier)
+    if r < 0.4:
+        # malformed: an exported document from which one line element was deleted (its connections remain)
+        c = G.gen_case(rng, tier, widen, raman_rate=0.0, raman_crash_rate=0.0, trx_src_rate=0.0, eol_zero=True)
+        c['kind'] = 'malformed'
+        c['drop'] = rng.random()
+        return c
     c = G.gen_case(rng, tier, widen, raman_rate=0.08, raman_crash_rate=0.0, eol_zero=rng.random() < 0.75)
     # keep the size moderate: several designs and propagations per case
     c['kind'] = 'redesign'
@@ -120,7 +128,7 @@ def gen_simparams(rng, tier):
 # ---------------------------------------------------------------------------------------------------------------------
 
 def run(case, drv):
-    return {'redesign': run_redesign, 'simparams': run_simparams}[case['kind']](case, drv)
+    return {'redesign': run_redesign, 'simparams': run_simparams, 'malformed': run_malformed}[case['kind']](case, drv)
 
 
 def jcopy(x):
@@ -514,7 +522,45 @@ def run_simparams(case, drv):
     return res
 
 
+def run_malformed(case, drv):
+    """export a design, delete one line element from the document (keeping its connections): the reload must be
+    rejected with NetworkTopologyError"""
+    from gnpy.core.parameters import SimParams
+    from gnpy.tools.json_io import network_to_json, network_from_json
+    res = Result()
+    SimParams.set_params({})
+    eq, net = _load(case)
+    err, _ = design_impl(case, eq, net)
+    if err is not None:
+        res.fail(f'design raised: designed_network failed with {err} on a well-formed topology')
+        return res
+    j = jcopy(network_to_json(net))
+    line = [e for e in j['elements'] if e['type'] in ('Fiber', 'Fused', 'Edfa')]
+    victim = line[int(case['drop'] * len(line)) % len(line)]['uid']
+    j['elements'] = [e for e in j['elements'] if e['uid'] != victim]
+    try:
+        network_from_json(jcopy(j), G.equipment_for(case))
+        got = None
+    except Exception as e:      # noqa: BLE001
+        got = err_kind(e)
+    ans = drv.ask('c17.reload', uids=[e['uid'] for e in j['elements']],
+                  connections=[[c['from_node'], c['to_node']] for c in j['connections']])
+    res.cmp_exact('network_from_json.error(malformed)', got, ans.get('error'))
+    if got != 'NetworkTopologyError':
+        res.fail(f'malformed accepted: document without element {victim} (still connected) gave {got}, expected '
+                 'NetworkTopologyError')
+    res.nontrivial = True
+    res.stats.update({'malformed': 1, f'malformed_error_{got}': 1})
+    return res
+
+
 def shrink_candidates(case):
+    if case['kind'] == 'malformed':
+        for c in G.shrink_candidates(case):
+            c['kind'] = 'malformed'
+            c['drop'] = case['drop']
+            yield c
+        return
     for c in G.shrink_candidates(case):
         c['kind'] = case['kind']
         if case['kind'] == 'redesign':
